@@ -1151,7 +1151,7 @@ def iterate(I, st, v):
 
             if e.done:
                 raise Unsupported("an exhausted iterator / generator is traversed again")
-            lazy_note(st, v, e.items)
+            lazy_note(st, v, e.items, own=False)
             items = list(e.items)
             e.items.clear()
             e.done = True
